@@ -119,3 +119,19 @@ package core
 //@ func (*pipe).Close$1
 //@   at call:Lock#1 set wasAdded:bool = p.added
 //@   ensures !wasAdded ==> called("Free")
+//@
+//@ func (*socket).NewDialer
+//@   loop 1 invariant !inh
+//@   at call:NewDialer#1 set inh:bool = false
+//@   before call:SetOption#3 assert arg0 == mangos.OptionMaxRecvSize && arg1 == iface(s.maxRxSize)
+//@   at call:SetOption#3 set inh:bool = true
+//@   ensures isnil(result1) && !has(options, mangos.OptionMaxRecvSize) ==> inh
+//@   ensures isnil(result1) ==> !isnil(result0) && cast("*dialer", result0).s == s && cast("*dialer", result0).addr == addr
+//@
+//@ func (*socket).NewListener
+//@   loop 1 invariant !inh
+//@   at call:NewListener#1 set inh:bool = false
+//@   before call:SetOption#2 assert arg0 == mangos.OptionMaxRecvSize && arg1 == iface(s.maxRxSize)
+//@   at call:SetOption#2 set inh:bool = true
+//@   ensures isnil(result1) && !has(options, mangos.OptionMaxRecvSize) ==> inh
+//@   ensures isnil(result1) ==> !isnil(result0) && cast("*listener", result0).s == s && cast("*listener", result0).addr == addr
